@@ -59,6 +59,9 @@ CLAIMED.update({
             'file settings x defaults with symbolic unsupported validation libraries: output location, scanned project, mode, verbosity and rejection-before-write; run_init likewise'),
 })
 NA = {}
+# properties whose thorough tier is not registered (see DESIGN.md 9.6): the quick command is then the only one
+NO_THOROUGH = set(l.strip() for l in open(os.path.join(ROOT, 'tools', 'no_thorough.txt')) if l.strip() and not l.startswith('#')) \
+    if os.path.exists(os.path.join(ROOT, 'tools', 'no_thorough.txt')) else set()
 checks = []
 for pid, (ref, text) in sorted(CLAIMED.items()):
     checks.append({
@@ -76,6 +79,9 @@ na = []
 for p in props:
     if p['id'] not in CLAIMED:
         na.append({'property_id': p['id'], 'reason': NA.get(p['id'], 'harness not built yet / does not yet pass its gates on the unchanged tree (DESIGN.md §3.10); no other technique substituted')})
+for c in checks:
+    if c['property_id'] in NO_THOROUGH:
+        del c['thorough_cmd']
 m = {
     'version': 1,
     'setup_cmd': './setup.sh',
